@@ -862,6 +862,14 @@ func (g *gen) genJSON(corpus []corpusEntry, n int) {
 		for ci, c := range jsonCoords {
 			doc := fmt.Sprintf(`{"type":%q,"coordinates":%s}`, t, c)
 			g.add("type_x_coords", f, []byte(doc))
+			if len(t) > 0 {
+				// after siblings that already showed BOTH a 2-element and a longer position (the coordinates type
+				// of the document is decided; the length checks of later members must still run), flat and nested
+				const p2, p3, p4 = `{"type":"Point","coordinates":[1,2]}`, `{"type":"LineString","coordinates":[[1,2,3],[4,5,6]]}`, `{"type":"Point","coordinates":[1,2,3,4]}`
+				g.add("type_x_coords_mixed", f, []byte(`{"type":"GeometryCollection","geometries":[`+p2+`,`+p3+`,`+doc+`]}`))
+				g.add("type_x_coords_mixed", f, []byte(`{"type":"GeometryCollection","geometries":[`+p4+`,`+p2+`,`+doc+`,`+p2+`]}`))
+				g.add("type_x_coords_mixed", f, []byte(`{"type":"GeometryCollection","geometries":[{"type":"GeometryCollection","geometries":[`+p3+`,`+p2+`]},{"type":"GeometryCollection","geometries":[`+doc+`]}]}`))
+			}
 			if len(t) > 0 && t[0] >= 'L' && (g.thorough || ci%2 == 0) {
 				g.add("type_x_coords_gc", f, []byte(`{"type":"GeometryCollection","geometries":[`+doc+`]}`))
 				g.add("type_x_coords_gc", f, []byte(`{"type":"GeometryCollection","geometries":[{"type":"Point","coordinates":[1,2,3]},`+doc+`]}`))
